@@ -84,6 +84,33 @@ def _int_provenance(fi, F, call, nid):
                 later = [m.id for m in F.cfg.nodes if m.id != F.cfg.nodes_of(st.body[0])[0] and L in F._killed(m) and F.cfg.can_reach(tn[0], m.id) and F.cfg.can_reach(m.id, nid)]
                 if bounded and dominated and not later:
                     return True, "guarded and normalised in place (if idx < 0: idx += %s)" % n_txt
+    if isinstance(arg, ast.Name):
+        # the same normalisation into another name:  if idx < 0: a = idx + len(self)  else: a = idx     (also written as a conditional expression)
+        A = arg.id
+        for st in ast.walk(fi.node):
+            if not (isinstance(st, ast.If) and len(st.body) == 1 and len(st.orelse) == 1 and isinstance(st.test, ast.Compare) and len(st.test.ops) == 1):
+                continue
+            t_ = st.test
+            L = None
+            if isinstance(t_.ops[0], ast.Lt) and isinstance(t_.comparators[0], ast.Constant) and t_.comparators[0].value == 0:
+                L, neg, pos = unparse(t_.left), st.body[0], st.orelse[0]
+            elif isinstance(t_.ops[0], ast.GtE) and isinstance(t_.comparators[0], ast.Constant) and t_.comparators[0].value == 0:
+                L, neg, pos = unparse(t_.left), st.orelse[0], st.body[0]
+            if L is None or not all(isinstance(x, ast.Assign) and len(x.targets) == 1 and unparse(x.targets[0]) == A for x in (neg, pos)):
+                continue
+            nv = neg.value
+            plus_len = isinstance(nv, ast.BinOp) and isinstance(nv.op, ast.Add) and ({unparse(nv.left), unparse(nv.right)} & set(LEN_TEXTS)) and L in (unparse(nv.left), unparse(nv.right))
+            if not plus_len or unparse(pos.value) != L:
+                continue
+            tn = F.cfg.nodes_of(st)
+            if not tn:
+                continue
+            bounded = any(F.one_of(tn[0], [(("<", L, x), True)]) and F.one_of(tn[0], [(("<", L, "-" + x), False)]) for x in LEN_TEXTS)
+            dominated = not F.cfg.can_reach(F.cfg.entry, nid, avoid=set(tn))
+            own = {F.cfg.nodes_of(neg)[0], F.cfg.nodes_of(pos)[0]}
+            later = [m.id for m in F.cfg.nodes if m.id not in own and (A in F._killed(m) or L in F._killed(m)) and F.cfg.can_reach(tn[0], m.id) and F.cfg.can_reach(m.id, nid)]
+            if bounded and dominated and not later:
+                return True, "guarded and normalised by cases (idx + len(self) if idx < 0 else idx)"
     return False, "%s is neither an element of range(*slice.indices(len(self))) nor a guarded index normalised with %% len(self)" % unparse(arg)
 
 
